@@ -164,6 +164,64 @@ def project_h2(script: Dict[str, Any], trace: List[Dict[str, Any]]) -> Optional[
     return {"evs": evs}
 
 
+def project_ws(script: Dict[str, Any], trace: List[Dict[str, Any]]) -> Optional[Dict[str, Any]]:
+    """Projection onto the alphabet of TraceWS (HTTP/1.1 carrier only)."""
+    if script.get("carrier", "h1") != "h1":
+        return None
+    unit = 10
+    evs: List[Dict[str, Any]] = []
+    begun = False
+    for ev in trace:
+        e = ev["e"]
+        if e == "winddown":
+            break
+        if e == "app_call" and ev.get("op") == "send":
+            begun = True
+            t = ev["m"]["type"]
+            if t == "websocket.accept":
+                evs.append({"k": "accept"})
+            elif t == "websocket.send":
+                evs.append({"k": "sendmsg"})
+            elif t == "websocket.close":
+                evs.append({"k": "aclose", "code": int(ev["m"].get("code", 1000))})
+            else:
+                return None
+        elif e == "app_recv":
+            t = ev["type"]
+            if t == "websocket.connect":
+                evs.append({"k": "recv", "what": "connect", "arg": 0})
+            elif t == "websocket.receive":
+                evs.append({"k": "recv", "what": "receive", "arg": int(ev["mid"])})
+            elif t == "websocket.disconnect":
+                evs.append({"k": "recv", "what": "disconnect", "arg": int(ev.get("code", 0))})
+            else:
+                return None
+        elif e == "c_frag":
+            if ev["n"] % unit:
+                return None
+            evs.append({"k": "frag", "kind": ev["kind"], "first": ev["first"], "fin": ev["fin"], "part": ev["n"] // unit})
+        elif e == "c_ws" and ev.get("kind") == "close":
+            evs.append({"k": "cclose", "code": 1005 if ev["size"] < 0 else int(ev["size"])})
+        elif e == "c_eof":
+            evs.append({"k": "lost"})
+        elif e in ("c_reset", "t_fail", "shutdown"):
+            return None
+        elif e == "wire" and ev.get("kind") == "ws_accept":
+            evs.append({"k": "w101"})
+        elif e == "wire" and ev.get("kind") == "ws_close":
+            evs.append({"k": "wclose", "code": int(ev["code"])})
+        elif e == "handler_done" and ev.get("exc") not in ("none", "cancelled"):
+            evs.append({"k": "crash"})
+        elif e == "quiescent" and begun:
+            if not evs or evs[-1]["k"] != "q":
+                evs.append({"k": "q"})
+    return {"evs": evs}
+
+
+def check_ws(jobs: List[Tuple[Dict[str, Any], str]], traces: List[List[Dict[str, Any]]]) -> Dict[str, Any]:
+    return check_design("TraceWS", "tlc/WSock/", project_ws, jobs, traces)
+
+
 def diagnose(module: str, item: Dict[str, Any], at: int, cfg_subst: Optional[Dict[str, str]] = None) -> str:
     """The design states TLC reaches at position `at` of one projected trace (for reading, not parsed)."""
     d = tlc.scratch("dd-" + module)
